@@ -41,7 +41,14 @@ func main() {
 	}
 	switch os.Args[1] {
 	case "run":
-		os.RemoveAll(filepath.Join(verifDir, "replays", propArg(os.Args[2:])))
+		os.RemoveAll(replayDir(propArg(os.Args[2:])))
+		if alts, _ := filepath.Glob(filepath.Join(verifDir, "replays", "alt-*")); len(alts) > 0 {
+			for _, a := range alts { // left by earlier runs against other trees: keep an hour for inspection
+				if st, err := os.Stat(a); err == nil && time.Since(st.ModTime()) > time.Hour {
+					os.RemoveAll(a)
+				}
+			}
+		}
 		os.Exit(cmdRun(os.Args[2:]))
 	case "replay":
 		os.Exit(cmdReplay(os.Args[2:]))
@@ -648,3 +655,13 @@ func cmdSelftest(args []string) int {
 
 // tests the baseline itself lists as flaky / always failing
 var flaky = map[string]bool{"TestNewBufferedChannelQueue": true, "TestLinkedListQueue": true, "TestWorkerJamDuration": true}
+
+// replayDir: where the counterexample files of one run go. A run against another tree (VERIF_REPO: seed / refactoring
+// regressions, possibly several at once) gets a directory of its own, so that concurrent runs do not delete each
+// other's files.
+func replayDir(prop string) string {
+	if os.Getenv("VERIF_REPO") != "" {
+		return filepath.Join(verifDir, "replays", fmt.Sprintf("alt-%d", os.Getpid()), prop)
+	}
+	return filepath.Join(verifDir, "replays", prop)
+}
